@@ -46,8 +46,10 @@ def tr(e, env, mode):
         if key in env:
             return env[key]
         raise Untranslatable('free attribute %s' % key)
-    if isinstance(e, ast.Constant) and isinstance(e.value, int) and not isinstance(e.value, bool) and 0 <= e.value <= 2:
-        return str(e.value)
+    if isinstance(e, ast.Constant) and isinstance(e.value, (int, float)) and not isinstance(e.value, bool) and e.value in (0, 1, 2):
+        return str(int(e.value))
+    if isinstance(e, ast.Attribute) and ast.unparse(e) in env:
+        return env[ast.unparse(e)]
     if isinstance(e, ast.Subscript):
         key = ast.unparse(e).replace(' ', '')
         if key in env:
@@ -99,10 +101,10 @@ def single_return(fn):
 def main():
     defs, missing, src = [], [], {}
 
-    def attempt(name, header, f):
+    def attempt(name, header, f, ty='α'):
         try:
             body, text = f()
-            defs.append('/-- source: `%s` -/\ndef %s %s : α :=\n  %s\n' % (text.replace('-/', '- /'), name, header, body))
+            defs.append('/-- source: `%s` -/\ndef %s %s : %s :=\n  %s\n' % (text.replace('-/', '- /'), name, header, ty, body))
             src[name] = text
         except Untranslatable as ex:
             missing.append('%s: %s' % (name, ex))
@@ -193,6 +195,69 @@ def main():
         env = {'a': 'a', 'b': 'b', 'data_rotated[:,0]': '(((x - cx) * c) + ((y - cy) * s))', 'data_rotated[:,1]': '(((y - cy) * c) - ((x - cx) * s))'}
         return tr(mask.left, env, 'field'), ast.unparse(mask) + '  with  ' + want
     attempt('src_ellipse_form', '(cx cy a b c s x y : α)', ellipse)
+
+    # ---- io.FCSData.hist_bins: grid end points per scale ---------------------------------------------------
+    io = parse('io.py')
+
+    def branch(scale):
+        fn = find(find(io, ast.ClassDef, 'FCSData'), ast.FunctionDef, 'hist_bins')
+        for n in ast.walk(fn):
+            if isinstance(n, ast.If) and isinstance(n.test, ast.Compare) and ast.unparse(n.test) == "scale_channel == '%s'" % scale:
+                return n.body
+        raise Untranslatable("branch scale_channel == '%s' not found" % scale)
+
+    def grid(scale, env0, which, wrapper):
+        def f():
+            body = branch(scale)
+            env = dict(env0)
+            lin = None
+            for st in body:
+                if isinstance(st, ast.Assign) and len(st.targets) == 1 and isinstance(st.targets[0], ast.Name):
+                    nm = st.targets[0].id
+                    if nm == 'delta_res':
+                        env['delta_res'] = tr(st.value, env, 'field')
+                    elif isinstance(st.value, ast.Call) and ast.unparse(st.value.func) == 'np.linspace':
+                        lin = st
+            if lin is None or 'delta_res' not in env:
+                raise Untranslatable('no delta_res / np.linspace in the %s branch' % scale)
+            a = lin.value.args
+            if len(a) != 3 or ast.unparse(a[2]) != 'nbins_channel + 1' or lin.value.keywords:
+                raise Untranslatable('linspace call is ' + ast.unparse(lin.value))
+            # what is done with the grid afterwards
+            after = [ast.unparse(st.value) for st in body if isinstance(st, ast.Assign) and st is not lin and isinstance(st.targets[0], ast.Name)
+                     and st.targets[0].id == 'bins_channel']
+            if after != wrapper:
+                raise Untranslatable('grid post-processing is %s, expected %s' % (after, wrapper))
+            dr = [st for st in body if isinstance(st, ast.Assign) and isinstance(st.targets[0], ast.Name) and st.targets[0].id == 'delta_res'][0]
+            return tr(a[which], env, 'field'), '%s branch: delta_res = %s; %s' % (scale, ast.unparse(dr.value), ast.unparse(lin.value))
+        return f
+    lin_env = {'range_channel[0]': 'lo', 'range_channel[1]': 'hi', 'res_channel': 'res'}
+    attempt('src_grid_linear_start', '(lo hi res : α)', grid('linear', lin_env, 0, []))
+    attempt('src_grid_linear_stop', '(lo hi res : α)', grid('linear', lin_env, 1, []))
+    # in the log branch range_channel has been replaced by its log10 before (checked below); lo, hi are the log10 values
+    attempt('src_grid_log_start', '(lo hi res : α)', grid('log', lin_env, 0, ['10 ** bins_channel']))
+    attempt('src_grid_log_stop', '(lo hi res : α)', grid('log', lin_env, 1, ['10 ** bins_channel']))
+    lgc_env = {'t.M': 'M', 'res_channel': 'res'}
+    attempt('src_grid_logicle_start', '(M res : α)', grid('logicle', lgc_env, 0, ['t.transform_non_affine(s)']))
+    attempt('src_grid_logicle_stop', '(M res : α)', grid('logicle', lgc_env, 1, ['t.transform_non_affine(s)']))
+
+    def log_prelude():
+        body = branch('log')
+        pre = [ast.unparse(st.value) for st in body if isinstance(st, ast.Assign) and isinstance(st.targets[0], ast.Name) and st.targets[0].id == 'range_channel'
+               and isinstance(st.value, ast.List)]
+        if pre != ['[np.log10(range_channel[0]), np.log10(range_channel[1])]']:
+            raise Untranslatable('log branch does not take log10 of both limits: %s' % pre)
+        last = [st for st in body if isinstance(st, ast.Assign)][-1]
+        return 'true', 'log branch: range_channel = ' + pre[0] + '; ... ; ' + ast.unparse(last)
+    attempt('src_log_branch_takes_log10_of_limits', '', log_prelude, 'Bool')
+
+    def logicle_post():
+        body = branch('logicle')
+        last = [st for st in body if isinstance(st, ast.Assign)][-1]
+        if ast.unparse(last) != 'bins_channel = t.transform_non_affine(s)':
+            raise Untranslatable('logicle branch ends with ' + ast.unparse(last))
+        return 'true', ast.unparse(last)
+    attempt('src_logicle_branch_applies_transform', '', logicle_post, 'Bool')
 
     lean = ['/-! GENERATED by extract/exprs.py from the FlowCal sources -- do not edit.\n',
             'Formulas found in the source, translated term by term.  Missing (not located / not translatable): %s -/' % (missing or 'none'),
